@@ -3137,7 +3137,7 @@ static int sexp_decode_utf8_char(const unsigned char* s) {
     } else if ((i < 0xF0) && (len == 3) && (s[2]>>6 == 2)) {
       return ((i&0x1F)<<12) + ((s[1]&0x3F)<<6) + (s[2]&0x3F);
     } else if ((len == 4) && (s[2]>>6 == 2) && (s[3]>>6 == 2)) {
-      return ((i&0x0F)<<16) + ((s[1]&0x3F)<<6) + ((s[2]&0x3F)<<6) + (s[3]&0x3F);
+      return ((i&0x07)<<18) + ((s[1]&0x3F)<<12) + ((s[2]&0x3F)<<6) + (s[3]&0x3F);
     }
   }
   return -1;
